@@ -178,6 +178,11 @@ def run(spec):
         if not (e <= XT) and npairs > P.n:
             out.count("skipped_rank_deficient_memory")  # singular compact system: rounding of the restored pairs is amplified without bound
             continue
+        if not (e <= XT) and probes.grazes_bound(ck.x, P.lb, P.ub):
+            # an iterate within a few ulp of a bound without being on it: the active-set / maximum-step decisions of the next
+            # iteration are taken within rounding distance of their thresholds (rounding-level different histories flip them)
+            out.count("skipped_rounding_sensitive_step")
+            continue
         if not (e <= XT):
             out.violate("continuation_differs", f"{where}: iterate {k + 1} after restart differs from the uninterrupted run by {e:.3e} relative "
                         f"(the step itself is {moved:.3e}); restart x={np.asarray(r1.result.x).tolist()} uninterrupted x={np.asarray(u.result.x).tolist()}",
